@@ -9,6 +9,7 @@
 pub mod pair;
 pub mod hs;
 pub mod refpeer;
+pub mod deadline;
 use crate::{Args, Rng, Run, hex, unhex};
 use bytes::Bytes;
 use pair::*;
